@@ -11,6 +11,8 @@ use zvcore::world::{self, Chunk, WMode};
 /// 0 Close: end-of-stream towards the socket, writes to the peer fail from then on
 /// 1 Reset: read error (connection reset), writes fail with ConnectionReset (not BrokenPipe)
 /// 2 WriteFail: nothing to read any more, the next library write fails
+/// 3 HalfClose: end-of-stream towards the socket while writes are still accepted (what the first writes after a
+///   peer's FIN do: the kernel takes them); only the read side tells the socket that the peer is gone
 #[derive(Clone, Debug)]
 pub struct Params {
     pub ty: Ty,
@@ -18,6 +20,11 @@ pub struct Params {
     pub fault: u8,
     pub live_first: bool,
     pub policy: u8,
+    /// key of the peer table's hasher: decides which of the two peers a walk over the table meets first
+    pub hash_key: u64,
+    /// the connection ends late: after the live peer's traffic has been received, inside a recv call that then stays
+    /// pending and is abandoned (no later recv call follows the one that saw the end)
+    pub late: bool,
 }
 
 fn victim_messages(ty: Ty) -> Vec<Vec<Vec<u8>>> {
@@ -48,13 +55,17 @@ pub fn victim_stream(ty: Ty) -> (Vec<u8>, usize) {
 
 pub fn scenario(pr: &Params) -> Verdict {
     world::reset(world::WorldCfg { nested_env: false, yields: false, select: true, policy: pr.policy, coop: false });
+    e3::set_hash_key(pr.hash_key);
     let ty = pr.ty;
     let (vs, hs_len) = victim_stream(ty);
     let victim = e3::raw_conn("V");
     let live = e3::raw_conn("L");
     victim.send(&vs[..pr.cut.min(vs.len())]);
+    if pr.late {
+        victim.gate("late-fault");
+    }
     match pr.fault {
-        0 => {
+        0 | 3 => {
             victim.eof();
         }
         1 => world::push_chunk(victim.to_lib, Chunk::Err(std::io::ErrorKind::ConnectionReset)),
@@ -107,6 +118,7 @@ pub fn scenario(pr: &Params) -> Verdict {
     let sends = std::rc::Rc::new(std::cell::RefCell::new(Vec::<(String, bool, usize, usize)>::new()));
     let (recvs2, sends2, vid2) = (recvs.clone(), sends.clone(), vid.clone());
     let fault = pr.fault;
+    let late = pr.late;
     world::spawn_app("app", async move {
         let mut sock = sock;
         world::wait_cond("l-attached").await;
@@ -114,7 +126,9 @@ pub fn scenario(pr: &Params) -> Verdict {
         world::idle().await;
         // from now on the victim's connection does not accept writes
         // (after a reset the kernel answers writes with ECONNRESET, after an orderly close with EPIPE)
-        world::set_wmode(victim.from_lib, WMode::Fail(if fault == 1 { std::io::ErrorKind::ConnectionReset } else { std::io::ErrorKind::BrokenPipe }));
+        if fault != 3 {
+            world::set_wmode(victim.from_lib, WMode::Fail(if fault == 1 { std::io::ErrorKind::ConnectionReset } else { std::io::ErrorKind::BrokenPipe }));
+        }
         let phase = |label: &str| world::log(format!("-- {}", label));
         phase("recv until idle");
         if ty.can_recv() && ty != Ty::Req {
@@ -145,17 +159,34 @@ pub fn scenario(pr: &Params) -> Verdict {
         } else {
             world::idle().await;
         }
+        if late {
+            phase("the connection ends inside a recv call that stays pending and is abandoned");
+            world::set_cond("late-fault");
+            if ty.can_recv() && ty != Ty::Req {
+                match world::until_idle(sock.recv()).await {
+                    Some(r) => {
+                        world::log(format!("recv -> {}", e3::show_result(&r)));
+                        recvs2.borrow_mut().push(r.map(|m| frames_of(&m)).map_err(|e| e3::err_class(&e)));
+                    }
+                    None => world::log("recv -> pending (abandoned)"),
+                }
+            } else {
+                world::idle().await;
+            }
+        }
         phase("sends");
+        // "victim wire" counts what the library tried to put on the dead connection: bytes accepted plus refused write calls
+        let wire = |c: e3::RawConn| world::tap_len(c.from_lib) + world::write_errors(c.from_lib) as usize;
         let do_send = |name: String, r: zeromq::ZmqResult<()>, vb: usize, lb: usize| {
-            let vg = world::tap_len(victim.from_lib) - vb;
-            let lg = world::tap_len(live.from_lib) - lb;
+            let vg = wire(victim) - vb;
+            let lg = wire(live) - lb;
             world::log(format!("send {} -> {} (victim wire +{}, live wire +{})", name, e3::ok_or_err(&r), vg, lg));
             sends2.borrow_mut().push((name, r.is_ok(), vg, lg));
         };
         match ty {
             Ty::Push | Ty::Dealer => {
                 for i in 0..5 {
-                    let (vb, lb) = (world::tap_len(victim.from_lib), world::tap_len(live.from_lib));
+                    let (vb, lb) = (wire(victim), wire(live));
                     world::yield_now().await; // time passes between two calls of the application
                     let r = sock.send(msg(&[format!("s{}", i).into_bytes()])).await;
                     do_send(format!("#{}", i), r, vb, lb);
@@ -163,7 +194,7 @@ pub fn scenario(pr: &Params) -> Verdict {
             }
             Ty::Req => {
                 for i in 0..5 {
-                    let (vb, lb) = (world::tap_len(victim.from_lib), world::tap_len(live.from_lib));
+                    let (vb, lb) = (wire(victim), wire(live));
                     world::yield_now().await; // time passes between two calls of the application
                     let r = sock.send(msg(&[format!("s{}", i).into_bytes()])).await;
                     let ok = r.is_ok();
@@ -180,7 +211,7 @@ pub fn scenario(pr: &Params) -> Verdict {
             }
             Ty::Pub | Ty::XPub => {
                 for i in 0..3 {
-                    let (vb, lb) = (world::tap_len(victim.from_lib), world::tap_len(live.from_lib));
+                    let (vb, lb) = (wire(victim), wire(live));
                     world::yield_now().await; // time passes between two calls of the application
                     let r = sock.send(msg(&[format!("news{}", i).into_bytes()])).await;
                     do_send(format!("publish#{}", i), r, vb, lb);
@@ -190,23 +221,41 @@ pub fn scenario(pr: &Params) -> Verdict {
                 let v = vid2.borrow().clone();
                 if let Some(v) = v {
                     for i in 0..2 {
-                        let (vb, lb) = (world::tap_len(victim.from_lib), world::tap_len(live.from_lib));
+                        let (vb, lb) = (wire(victim), wire(live));
                         world::yield_now().await; // time passes between two calls of the application
                         let r = sock.send(msg(&[v.clone(), format!("to-victim{}", i).into_bytes()])).await;
                         do_send(format!("to-victim#{}", i), r, vb, lb);
                     }
                 }
-                let (vb, lb) = (world::tap_len(victim.from_lib), world::tap_len(live.from_lib));
+                let (vb, lb) = (wire(victim), wire(live));
                 world::yield_now().await; // time passes between two calls of the application
                 let r = sock.send(msg(&[b"L".to_vec(), b"to-live".to_vec()])).await;
                 do_send("to-live".into(), r, vb, lb);
             }
             Ty::Rep => {
                 // reply to the last request received (the live peer's)
-                let (vb, lb) = (world::tap_len(victim.from_lib), world::tap_len(live.from_lib));
+                let (vb, lb) = (wire(victim), wire(live));
                 world::yield_now().await; // time passes between two calls of the application
                 let r = sock.send(msg(&[b"reply".to_vec()])).await;
                 do_send("reply".into(), r, vb, lb);
+            }
+            Ty::Sub => {
+                // the subscription changes that follow must reach the live publisher whatever happened to the other one
+                for (i, (subscribe, topic)) in [(true, "n0"), (true, "n1"), (false, "n0")].into_iter().enumerate() {
+                    let (vb, lb) = (wire(victim), wire(live));
+                    world::yield_now().await;
+                    let r = match &mut sock {
+                        AnySocket::Sub(s) => {
+                            if subscribe {
+                                s.subscribe(topic).await
+                            } else {
+                                s.unsubscribe(topic).await
+                            }
+                        }
+                        _ => unreachable!(),
+                    };
+                    do_send(format!("{}#{}({})", if subscribe { "subscribe" } else { "unsubscribe" }, i, topic), r, vb, lb);
+                }
             }
             _ => {}
         }
@@ -225,9 +274,9 @@ pub fn scenario(pr: &Params) -> Verdict {
         vs.len(),
         hs_len,
         pr.cut,
-        ["close (EOF, writes fail)", "reset (read error, writes fail)", "silence + failing writes"][pr.fault as usize],
+        ["close (EOF, writes fail)", "reset (read error, writes fail)", "silence + failing writes", "half-close (EOF, writes still accepted)"][pr.fault as usize],
         if pr.live_first { "attached first" } else { "attached second" }
-    );
+    ) + if pr.late { " (the end comes after the live peer's traffic, inside a recv call that stays pending and is abandoned)" } else { "" };
     for p in world::panics() {
         v.violate("panic", format!("{}: {}", what, p));
     }
@@ -239,7 +288,7 @@ pub fn scenario(pr: &Params) -> Verdict {
     let v_attach_returned = world::cond("v-attach-returned");
     let recvs = recvs.borrow().clone();
     let sends = sends.borrow().clone();
-    let fault_name = ["close", "reset", "writefail"][pr.fault as usize];
+    let fault_name = ["close", "reset", "writefail", "halfclose"][pr.fault as usize];
     if world::panics().is_empty() && !v.truncated {
         if !world::cond("done") {
             v.violate(format!("app-stuck/{}", ty.name()), format!("{}: the application's calls did not all return", what));
@@ -295,7 +344,11 @@ pub fn scenario(pr: &Params) -> Verdict {
                     // at most one send may fail on the dead connection (that is how a write-only socket observes it); afterwards everything goes to the live peer
                     let fails = sends.iter().filter(|s| !s.1).count();
                     let to_victim_after_first_failure = sends.iter().skip_while(|s| s.1).skip(1).any(|s| s.2 > 0 || !s.1);
-                    if fails > 1 || to_victim_after_first_failure {
+                    // the dead connection is tried at most once (a socket that had no occasion to see the end finds out by
+                    // writing); a socket whose recv already saw the end does not try it at all
+                    let attempts = sends.iter().filter(|s| s.2 > 0).count();
+                    let seen_by_recv = ty == Ty::Dealer && pr.fault != 2;
+                    if fails > 1 || to_victim_after_first_failure || attempts > if seen_by_recv { 0 } else { 1 } {
                         v.violate(format!("send-routed-to-dead-peer/{}", ty.name()), format!("{}: sends after the connection ended: {:?} (name, ok, victim wire growth, live wire growth)", what, sends));
                     }
                     if ty == Ty::Req && recvs.iter().any(|r| r.as_ref().err().map(|e| e == "PENDING-FOREVER").unwrap_or(false)) {
@@ -303,7 +356,9 @@ pub fn scenario(pr: &Params) -> Verdict {
                     }
                 }
                 Ty::Pub | Ty::XPub => {
-                    if sends.iter().any(|s| s.2 > 0) {
+                    // a publisher reads its subscribers' connections all the time, so it has seen a close or reset; failing
+                    // writes alone are found out by the first publish
+                    if sends.iter().filter(|s| s.2 > 0).count() > if pr.fault == 2 { 1 } else { 0 } {
                         v.violate(format!("publish-written-to-dead-peer/{}", ty.name()), format!("{}: {:?}", what, sends));
                     }
                     // the live subscriber (subscribed to everything) gets every publish
@@ -311,8 +366,19 @@ pub fn scenario(pr: &Params) -> Verdict {
                         v.violate(format!("live-subscriber-affected/{}", ty.name()), format!("{}: {:?}", what, sends));
                     }
                 }
+                Ty::Sub => {
+                    // every change of the subscription set reaches the live publisher, whatever the call returned
+                    if pr.fault != 2 && sends.iter().any(|s| s.2 > 0) {
+                        v.violate("subscription-written-to-dead-peer/SUB", format!("{}: {:?} (call, ok, victim wire growth, live wire growth)", what, sends));
+                    }
+                    if sends.iter().any(|s| s.3 == 0) {
+                        v.violate("live-publisher-not-told/SUB", format!("{}: subscription changes after the connection ended: {:?} (call, ok, victim wire growth, live wire growth)", what, sends));
+                    }
+                }
                 Ty::Router => {
-                    if sends.iter().filter(|s| s.0.starts_with("to-victim")).skip(1).any(|s| s.1) {
+                    // a close or reset has been seen by recv: no send to that identity is accepted any more;
+                    // failing writes alone are found out by the first send
+                    if sends.iter().filter(|s| s.0.starts_with("to-victim")).skip(if pr.fault == 2 { 1 } else { 0 }).any(|s| s.1) {
                         v.violate("router-send-to-dead-peer-accepted", format!("{}: {:?}", what, sends));
                     }
                     if sends.iter().any(|s| s.0 == "to-live" && (!s.1 || s.3 == 0)) {
@@ -368,7 +434,7 @@ fn frame_boundary(ty: Ty, cut: usize) -> bool {
 }
 
 pub fn pj(p: &Params) -> Value {
-    json!({"type": p.ty.name(), "cut": p.cut, "fault": p.fault, "live_first": p.live_first, "policy": p.policy})
+    json!({"type": p.ty.name(), "cut": p.cut, "fault": p.fault, "live_first": p.live_first, "policy": p.policy, "hash_key": p.hash_key, "late": p.late})
 }
 
 pub fn pf(v: &Value) -> Option<Params> {
@@ -378,6 +444,8 @@ pub fn pf(v: &Value) -> Option<Params> {
         fault: v["fault"].as_u64()? as u8,
         live_first: v["live_first"].as_bool()?,
         policy: v["policy"].as_u64().unwrap_or(0) as u8,
+        hash_key: v["hash_key"].as_u64().unwrap_or(0),
+        late: v["late"].as_bool().unwrap_or(false),
     })
 }
 
@@ -386,16 +454,42 @@ pub fn jobs(tier: Tier) -> Vec<Job> {
     for ty in ALL_TYPES {
         let (vs, hs_len) = victim_stream(ty);
         for cut in 0..=vs.len() {
-            for fault in 0..3u8 {
+            for fault in 0..4u8 {
+                // a half-close only tells sockets that read, and only once the peer has been admitted
+                if fault == 3 && (matches!(ty, Ty::Push | Ty::Req) || cut < hs_len) {
+                    continue;
+                }
                 for live_first in [false, true] {
                     if live_first && tier == Tier::Quick && !(cut >= hs_len) {
                         continue;
                     }
-                    let pr = Params { ty, cut, fault, live_first, policy: 0 };
-                    let pr2 = pr.clone();
-                    let bound = if cut >= hs_len { tier.pick(2, 3) } else { tier.pick(1, 2) };
-                    jobs.push(e3::job(format!("C16/{}/cut{}/fault{}/{}", ty.name(), cut, fault, live_first), pj(&pr), bound, tier.pick(30_000, 400_000), move || scenario(&pr2)));
+                    // sockets that walk their peer table (publish, subscribe) meet the two peers in hash order: both orders
+                    let keys: &[u64] = if matches!(ty, Ty::Sub | Ty::Pub | Ty::XPub) && cut >= hs_len { &[0, 1, 2, 3] } else { &[0] };
+                    for &hash_key in keys {
+                        let pr = Params { ty, cut, fault, live_first, policy: 0, hash_key, late: false };
+                        let pr2 = pr.clone();
+                        let bound = if cut >= hs_len { tier.pick(2, 3) } else { tier.pick(1, 2) };
+                        let bound = if hash_key > 0 { bound.min(tier.pick(1, 2)) } else { bound };
+                        jobs.push(e3::job(format!("C16/{}/cut{}/fault{}/{}/key{}", ty.name(), cut, fault, live_first, hash_key), pj(&pr), bound, tier.pick(30_000, 400_000), move || scenario(&pr2)));
+                    }
                 }
+            }
+        }
+    }
+    // the end comes late, inside the last recv call
+    for ty in ALL_TYPES {
+        let (vs, hs_len) = victim_stream(ty);
+        for cut in hs_len..=vs.len() {
+            if !(cut == hs_len || cut == hs_len + 1 || cut == vs.len() || cut + 1 == vs.len() || frame_boundary(ty, cut)) && tier == Tier::Quick {
+                continue;
+            }
+            for fault in [0u8, 1, 3] {
+                if fault == 3 && matches!(ty, Ty::Push | Ty::Req) {
+                    continue;
+                }
+                let pr = Params { ty, cut, fault, live_first: false, policy: 0, hash_key: 0, late: true };
+                let pr2 = pr.clone();
+                jobs.push(e3::job(format!("C16/{}/cut{}/fault{}/late", ty.name(), cut, fault), pj(&pr), tier.pick(1, 2), tier.pick(30_000, 400_000), move || scenario(&pr2)));
             }
         }
     }
